@@ -3,7 +3,9 @@ module verifharness
 go 1.19
 
 require (
+	github.com/docker/docker v20.10.7+incompatible
 	github.com/google/gopacket v1.1.20-0.20210304165259-20562ffb40f8
+	github.com/mailru/easyjson v0.7.7
 	github.com/v-byte-cpu/sx v0.0.0
 	github.com/vishvananda/netlink v1.1.0
 	go.uber.org/ratelimit v0.2.0
@@ -14,13 +16,11 @@ require (
 	github.com/andres-erbsen/clock v0.0.0-20160526145045-9e14626cd129 // indirect
 	github.com/containerd/containerd v1.4.4 // indirect
 	github.com/docker/distribution v2.7.1+incompatible // indirect
-	github.com/docker/docker v20.10.7+incompatible // indirect
 	github.com/docker/go-connections v0.4.0 // indirect
 	github.com/docker/go-units v0.4.0 // indirect
 	github.com/gogo/protobuf v1.3.2 // indirect
 	github.com/golang/protobuf v1.5.2 // indirect
 	github.com/josharian/intern v1.0.0 // indirect
-	github.com/mailru/easyjson v0.7.7 // indirect
 	github.com/moby/moby v20.10.7+incompatible // indirect
 	github.com/opencontainers/go-digest v1.0.0 // indirect
 	github.com/opencontainers/image-spec v1.0.1 // indirect
